@@ -305,6 +305,8 @@ def build_setitem(cls, items, first):
 
 def build_from_multiple(cls, items):
     # nesting: the first item alone, the rest inside a list inside a tuple
+    if not isinstance(items, list):
+        return cls.from_multiple(items)
     return cls.from_multiple(items[0], ([x for x in items[1:]],)) if items else cls.from_multiple()
 
 
@@ -353,8 +355,23 @@ def _register_owners_items(ip, env):
             table[d['trs'].t.get_id()] = d
 
 
+def _tractlist_into_trslist_unit(builder, k):
+    from pytrs.parser.containers.containers import TRSList
+    from pytrs import TRS
+
+    def post(items, result):
+        return (len(result._elements) == len(items._elements)
+                and all([isinstance(result._elements[n], TRS) and result._elements[n].made_from == items._elements[n].trs
+                         for n in range(len(items._elements))]))
+    return Unit(
+        name=f'C18/entry[TRSList from a TractList,{builder.__name__},k={k}]', prop='C18', target=f'props.c18:{builder.__name__}',
+        params={'cls': Const(TRSList), 'items': ContainerT('Tract', k)}, uses=[TRS_INIT], setup_params=_register_owners,
+        ensures=[('every_tract_converted_in_order', post)])
+
+
 def _entry_units():
-    us = []
+    us = [_tractlist_into_trslist_unit(b, k) for b in (build_new, build_extend, build_iadd, build_add, build_from_multiple)
+          for k in (1, 2)]
     for cls_name in ('TractList', 'TRSList'):
         for b in (build_new, build_extend, build_iadd, build_add, build_append, build_insert, build_setitem, build_from_multiple):
             for m in (1, 2):
@@ -468,6 +485,15 @@ def _bounded_containers(tier, seed):
                             len(back), len(orig))
         if len(samples) < 3 and len(combo) == 3:
             samples.append({'trs': [pool[i] for i in combo], 'groups': {k: len(v) for k, v in TractList(tracts).group_by('twprge').items()}})
+    # a TractList handed to a TRSList directly
+    tl = TractList([Tract('NE/4', trs='154n97w14'), Tract('W/2', trs='154n97w15')])
+    for how, mk in (('new', lambda: TRSList(tl)), ('extend', lambda: (lambda l: (l.extend(tl), l)[1])(TRSList())),
+                    ('iadd', lambda: TRSList().__iadd__(tl)), ('add', lambda: TRSList() + tl), ('from_multiple', lambda: TRSList.from_multiple(tl))):
+        ev += 1
+        distinct.add(('trslist-from-tractlist', how))
+        r = mk()
+        if [type(x) for x in r] != [TRS, TRS] or [x.trs for x in r] != ['154n97w14', '154n97w15']:
+            bad({'op': 'TRSList from TractList', 'how': how}, [type(x).__name__ for x in r], ['TRS', 'TRS'])
     # entry paths with foreign elements
     t1, t2 = Tract('NE/4', trs='154n97w14'), Tract('W/2', trs='154n97w15')
     d = pytrs.PLSSDesc('T154N-R97W Sec 14: NE/4, Sec 15: W/2')
